@@ -42,7 +42,7 @@ Api(id, f, n, e) == [St("api", id) EXCEPT !.f = f, !.n = n, !.e = e]
 
 Tm(name, ext, imps, body) == [name |-> name, ext |-> ext, imps |-> imps, body |-> body]
 NoVarsMap == [n \in cNames |-> Unset]
-RunR(entry, vars, data) == [entry |-> entry, vars |-> vars, data |-> data]
+RunR(entry, vm, data) == [entry |-> entry, vars |-> vm, data |-> data]
 
 ---------------------------------------------------------------------------
 (* Wrappers.  A build result carries the statement list for the hole's      *)
@@ -55,6 +55,10 @@ L(i) == ToString(i)
 WrapKinds == {"range", "rangekv", "rangeelse", "if", "ifelse", "iflet", "ifletelse", "let",
               "ycont", "ycontp", "yctx", "ybody", "ybodyp", "blockdef",
               "include", "includectx", "exec", "tryin", "tryincatch", "catchbody"}
+
+\* the wrappers that push interpreter state (used for the deepest enumeration)
+CoreKinds == {"range", "rangekv", "iflet", "let", "ycont", "ycontp", "yctx", "ybody", "ybodyp",
+              "includectx", "exec", "tryin", "catchbody"}
 
 Wrap(kind, i, r) ==
   LET id(x) == kind \o L(i) \o x
